@@ -4,6 +4,21 @@ From CG Require Import Types Model.Store.
 Open Scope string_scope.
 
 (* ------------------------------------------------------------------ reachability *)
+Lemma hclosed_dom h l c l' : hclosed h → h !! l = Some c → l' ∈ refs c → l' ∈ dom h.
+Proof. intros Hc Hl Hr. by destruct (Hc _ _ _ Hl Hr). Qed.
+Lemma vcell_sub h h' l : h ⊆ h' → vcell h l → vcell h' l.
+Proof. intros Hs [d Hd]. exists d. by eapply lookup_weaken. Qed.
+Lemma vcell_dom h l : vcell h l → l ∈ dom h.
+Proof. intros [d Hd]. by apply elem_of_dom. Qed.
+Lemma elem_of_refs_dict (b : gmap string loc) l : l ∈ refs (CDict b) ↔ ∃ k, b !! k = Some l.
+Proof.
+  simpl. rewrite elem_of_list_fmap. split.
+  - intros ([k l0] & -> & H%elem_of_map_to_list). by exists k.
+  - intros [k Hk]. exists (k, l). split; [done|by apply elem_of_map_to_list].
+Qed.
+Lemma refs_dict_empty : refs (CDict ∅) = [].
+Proof. simpl. by rewrite map_to_list_empty. Qed.
+
 Lemma pts_sub h h' l l' : h ⊆ h' → pts h l l' → pts h' l l'.
 Proof. intros Hs (c & Hc & Hr). exists c. split; [by eapply lookup_weaken|done]. Qed.
 Lemma reach_sub h h' r l : h ⊆ h' → reach h r l → reach h' r l.
@@ -11,69 +26,110 @@ Proof. intros Hs. induction 1 as [|x y z Hxy _ IH]; [constructor|]. eapply rtc_l
 Lemma reach_dom h r l : hclosed h → r ∈ dom h → reach h r l → l ∈ dom h.
 Proof.
   intros Hc Hr Hrl. induction Hrl as [|x y z (c & Hx & Hy) _ IH]; [done|].
-  apply IH. by eapply Hc.
+  apply IH. by eapply hclosed_dom.
 Qed.
 Lemma reach_ext h h' r l : h ⊆ h' → hclosed h → r ∈ dom h → reach h' r l → reach h r l.
 Proof.
   intros Hs Hc Hr Hrl. induction Hrl as [|x y z (c & Hx & Hy) _ IH]; [constructor|].
   apply elem_of_dom in Hr as [c0 Hc0].
   assert (c = c0) as -> by (pose proof (lookup_weaken _ _ _ _ Hc0 Hs); congruence).
-  eapply rtc_l; [by exists c0|]. apply IH. by eapply Hc.
+  eapply rtc_l; [by exists c0|]. apply IH. by eapply hclosed_dom.
 Qed.
 Lemma reach_leaf h l c l' : h !! l = Some c → refs c = [] → reach h l l' → l' = l.
 Proof.
   intros Hl Hr Hrl. destruct Hrl as [|x y z (c' & Hx & Hy) _]; [done|].
   rewrite Hl in Hx. injection Hx as <-. rewrite Hr in Hy. by apply elem_of_nil in Hy.
 Qed.
+Lemma reach_vcell h l l' : vcell h l → reach h l l' → l' = l.
+Proof. intros [d Hd] Hr. by eapply reach_leaf. Qed.
 Lemma reach_circ h l n g b l' : h !! l = Some (CCirc n g b) → reach h l l' → l' = l ∨ reach h g l' ∨ reach h b l'.
 Proof.
   intros Hl Hrl. destruct Hrl as [|x y z (c' & Hx & Hy) Hr]; [by left|].
   rewrite Hl in Hx. injection Hx as <-. simpl in Hy. right.
   apply elem_of_cons in Hy as [->|Hy]; [by left|]. apply elem_of_list_singleton in Hy as ->. by right.
 Qed.
+(* from a registry dict one reaches the dict and BlackBox cells only *)
+Lemma reach_dict h l b l' : hclosed h → h !! l = Some (CDict b) → reach h l l' → l' = l ∨ vcell h l'.
+Proof.
+  intros Hc Hl Hrl. destruct Hrl as [|x y z (c' & Hx & Hy) Hr]; [by left|].
+  rewrite Hl in Hx. injection Hx as <-. right.
+  destruct (Hc _ _ _ Hl Hy) as [_ Hv]. specialize (Hv I). by rewrite (reach_vcell _ _ _ Hv Hr).
+Qed.
 Lemma reach_step h l c l1 l' : h !! l = Some c → l1 ∈ refs c → reach h l1 l' → reach h l l'.
 Proof. intros. eapply rtc_l; [by exists c|done]. Qed.
 
 Lemma insert_fresh_sub (h : heap) l c : l ∉ dom h → h ⊆ <[l := c]> h.
 Proof. intros. apply insert_subseteq. by apply not_elem_of_dom. Qed.
-Lemma hclosed_insert h l c : hclosed h → (∀ l', l' ∈ refs c → l' ∈ dom h ∨ l' = l) → hclosed (<[l := c]> h).
+(* a new cell *)
+Lemma hclosed_insert h l c : hclosed h → l ∉ dom h →
+  (∀ l', l' ∈ refs c → (l' ∈ dom h ∨ l' = l) ∧ (is_dict c → vcell h l')) → hclosed (<[l := c]> h).
 Proof.
-  intros Hc Hr l1 c1 l2 Hl1 Hl2. rewrite dom_insert_L.
+  intros Hc Hl Hr l1 c1 l2 Hl1 Hl2. rewrite dom_insert_L.
+  pose proof (insert_fresh_sub h l c Hl) as Hs.
   destruct (decide (l1 = l)) as [->|Hne].
-  - rewrite lookup_insert in Hl1. injection Hl1 as <-. destruct (Hr _ Hl2) as [?| ->]; set_solver.
-  - rewrite lookup_insert_ne in Hl1 by done. pose proof (Hc _ _ _ Hl1 Hl2). set_solver.
+  - rewrite lookup_insert in Hl1. injection Hl1 as <-. destruct (Hr _ Hl2) as [[?| ->] Hv]; (split; [set_solver|]);
+      intros Hd; eapply vcell_sub; eauto.
+  - rewrite lookup_insert_ne in Hl1 by done. destruct (Hc _ _ _ Hl1 Hl2) as [? Hv]. split; [set_solver|].
+    intros Hd; eapply vcell_sub; eauto.
+Qed.
+(* overwriting a cell by one of the same sort *)
+Lemma hclosed_update h l c0 c : hclosed h → h !! l = Some c0 → (vcell h l ↔ ∃ d, c = CBb d) →
+  (∀ l', l' ∈ refs c → l' ∈ dom h ∧ (is_dict c → vcell h l' ∧ l' ≠ l)) → hclosed (<[l := c]> h).
+Proof.
+  intros Hc Hl0 Hk Hr l1 c1 l2 Hl1 Hl2. rewrite dom_insert_L.
+  assert (∀ l3, vcell h l3 → vcell (<[l := c]> h) l3) as Hv3.
+  { intros l3 [d Hd]. destruct (decide (l3 = l)) as [->|Hne3].
+    - destruct (proj1 Hk (ex_intro _ d Hd)) as [d' ->]. exists d'. by rewrite lookup_insert.
+    - exists d. by rewrite lookup_insert_ne. }
+  destruct (decide (l1 = l)) as [->|Hne].
+  - rewrite lookup_insert in Hl1. injection Hl1 as <-. destruct (Hr _ Hl2) as [? Hv]. split; [set_solver|].
+    intros Hd. destruct (Hv Hd) as [Hv' Hne']. by apply Hv3.
+  - rewrite lookup_insert_ne in Hl1 by done. destruct (Hc _ _ _ Hl1 Hl2) as [? Hv]. split; [set_solver|].
+    intros Hd. by apply Hv3, Hv.
 Qed.
 
 (* ------------------------------------------------------------------ the invariant *)
-Definition inv (own : gset string) (h0 : heap) (σ : state) : Prop :=
+(* h0: the heap when the function was called.  own: everything reachable is new or a BlackBox cell;
+   ownv: the object itself is new. *)
+Definition inv (own ownv : gset string) (h0 : heap) (σ : state) : Prop :=
   h0 ⊆ σ.1 ∧ hclosed σ.1 ∧ env_ok σ.1 σ.2 ∧
-  ∀ x l l', x ∈ own → σ.2 !! x = Some l → reach σ.1 l l' → l' ∉ dom h0.
+  (∀ x l l', x ∈ own → σ.2 !! x = Some l → reach σ.1 l l' → l' ∉ dom h0 ∨ vcell σ.1 l') ∧
+  (∀ x l, x ∈ ownv → σ.2 !! x = Some l → l ∉ dom h0).
 
-Lemma inv_ext_none own h0 h e h' : inv own h0 (h, e) → h ⊆ h' → hclosed h' → inv own h0 (h', e).
+Lemma own_ext h h' l l' (P : Prop) : h ⊆ h' → hclosed h → l ∈ dom h →
+  (reach h l l' → P ∨ vcell h l') → reach h' l l' → P ∨ vcell h' l'.
 Proof.
-  intros (H1 & H2 & H3 & H4) Hs Hc. split_and!; simpl in *.
+  intros Hs Hc Hl H Hr. destruct (H (reach_ext _ _ _ _ Hs Hc Hl Hr)) as [?|?]; [by left|right; by eapply vcell_sub].
+Qed.
+Lemma inv_ext_none own ownv h0 h e h' : inv own ownv h0 (h, e) → h ⊆ h' → hclosed h' → inv own ownv h0 (h', e).
+Proof.
+  intros (H1 & H2 & H3 & H4 & H5) Hs Hc. split_and!; simpl in *.
   - by etrans.
   - done.
   - intros x l Hx. eapply (subseteq_dom _ _ Hs), H3, Hx.
-  - intros x l l' Hx Hl Hr. eapply H4; [done..|]. eapply reach_ext; eauto.
+  - intros x l l' Hx Hl. eapply own_ext; [done|done|by eapply H3|]. by eapply H4.
+  - done.
 Qed.
-Lemma inv_ext_bind own h0 h e h' d l :
-  inv own h0 (h, e) → h ⊆ h' → hclosed h' → l ∈ dom h' →
-  (d ∈ own → ∀ l', reach h' l l' → l' ∉ dom h0) → inv own h0 (h', <[d := l]> e).
+Lemma inv_ext_bind own ownv h0 h e h' d l :
+  inv own ownv h0 (h, e) → h ⊆ h' → hclosed h' → l ∈ dom h' →
+  (d ∈ own → ∀ l', reach h' l l' → l' ∉ dom h0 ∨ vcell h' l') → (d ∈ ownv → l ∉ dom h0) →
+  inv own ownv h0 (h', <[d := l]> e).
 Proof.
-  intros (H1 & H2 & H3 & H4) Hs Hc Hl Hd. split_and!; simpl in *.
+  intros (H1 & H2 & H3 & H4 & H5) Hs Hc Hl Hd Hdv. split_and!; simpl in *.
   - by etrans.
   - done.
   - intros x lx Hx. apply lookup_insert_Some in Hx as [[_ <-]|[_ Hx]]; [done|]. eapply (subseteq_dom _ _ Hs), H3, Hx.
-  - intros x lx l' Hx Hlx Hr. apply lookup_insert_Some in Hlx as [[<- <-]|[_ Hlx]]; [by apply Hd|].
-    eapply H4; [done..|]. eapply reach_ext; eauto.
+  - intros x lx l' Hx Hlx. apply lookup_insert_Some in Hlx as [[<- <-]|[_ Hlx]]; [by apply Hd|].
+    eapply own_ext; [done|done|by eapply H3|]. by eapply H4.
+  - intros x lx Hx Hlx. apply lookup_insert_Some in Hlx as [[<- <-]|[_ Hlx]]; [by apply Hdv|]. by eapply H5.
 Qed.
-Lemma inv_dom0 own h0 h e l : inv own h0 (h, e) → l ∉ dom h → l ∉ dom h0.
+Lemma inv_dom0 own ownv h0 h e l : inv own ownv h0 (h, e) → l ∉ dom h → l ∉ dom h0.
 Proof. intros (H1 & _) Hl Hl0. apply Hl. by eapply (subseteq_dom _ _ H1). Qed.
 
 Lemma ino_true own x : ino own x = true ↔ x ∈ own.
 Proof. unfold ino. by rewrite bool_decide_eq_true. Qed.
-
+Lemma ino_false own x : negb (ino own x) = true → x ∉ own.
+Proof. intros H%negb_true_iff Hx. apply ino_true in Hx. congruence. Qed.
 Lemma forallb_elem {A} (f : A → bool) l x : forallb f l = true → x ∈ l → f x = true.
 Proof.
   induction l as [|a l IH]; simpl; [by intros _ ?%elem_of_nil|].
@@ -82,35 +138,64 @@ Qed.
 Lemma implb_ino own d b : implb (ino own d) b = true → d ∈ own → b = true.
 Proof. intros H Hd. apply ino_true in Hd. by rewrite Hd in H. Qed.
 
-(* a mutator applied through an owned local *)
+(* a mutator of a circuit / graph / registry applied through an owned local *)
 Lemma reach_write h l h' r l' :
-  wstep h l h' → reach h' r l' → reach h r l' ∨ reach h l l' ∨ l' ∉ dom h.
+  wstep h l h' → reach h' r l' → reach h r l' ∨ reach h l l' ∨ l' ∉ dom h ∨ vcell h l'.
 Proof.
   intros (W & HW & Hdom & Hcl & Hfr & Hrefs) Hr.
-  revert l' Hr. apply (rtc_ind_r (λ l', reach h r l' ∨ reach h l l' ∨ l' ∉ dom h)); [left; constructor|]. intros y z Hxy (c & Hy & Hz) IH.
+  revert l' Hr. apply (rtc_ind_r (λ l', reach h r l' ∨ reach h l l' ∨ l' ∉ dom h ∨ vcell h l')); [left; constructor|].
+  intros y z Hxy (c & Hy & Hz) IH.
   destruct (decide (y ∈ dom h)) as [Hyd|Hyd]; [destruct (decide (y ∈ W)) as [HyW|HyW]|].
-  - destruct (Hrefs _ _ _ Hy Hz (or_introl HyW)); auto.
-  - rewrite (Hfr _ Hyd HyW) in Hy. destruct IH as [IH|[IH|IH]]; [| |done].
+  - destruct (Hrefs _ _ _ Hy Hz (or_introl HyW)) as [?|[?|?]]; auto.
+  - rewrite (Hfr _ Hyd HyW) in Hy. destruct IH as [IH|[IH|[IH|[d IH]]]]; [| |done|].
     + left. eapply rtc_r; [done|by exists c].
     + right; left. eapply rtc_r; [done|by exists c].
-  - destruct (Hrefs _ _ _ Hy Hz (or_intror Hyd)); auto.
+    + rewrite IH in Hy. injection Hy as <-. by apply elem_of_nil in Hz.
+  - destruct (Hrefs _ _ _ Hy Hz (or_intror Hyd)) as [?|[?|?]]; auto.
 Qed.
-Lemma inv_write own h0 h e x l h' :
-  inv own h0 (h, e) → x ∈ own → e !! x = Some l → wstep h l h' → inv own h0 (h', e).
+Lemma wstep_vcell h l h' l' : wstep h l h' → vcell h l' → vcell h' l'.
 Proof.
-  intros Hinv Hx Hl Hw. pose proof Hinv as (H1 & H2 & H3 & H4). simpl in *.
+  intros (W & HW & Hdom & Hcl & Hfr & Hrefs) Hv. pose proof Hv as [d Hd]. exists d.
+  rewrite Hfr; [done|by apply vcell_dom|]. intros HlW. by destruct (HW _ HlW).
+Qed.
+Lemma inv_write own ownv h0 h e x l h' :
+  inv own ownv h0 (h, e) → x ∈ own → e !! x = Some l → wstep h l h' → inv own ownv h0 (h', e).
+Proof.
+  intros Hinv Hx Hl Hw. pose proof Hinv as (H1 & H2 & H3 & H4 & H5). simpl in *.
   pose proof Hw as (W & HW & Hdom & Hcl & Hfr & Hrefs).
   split_and!; simpl.
   - apply map_subseteq_spec. intros l0 c0 Hl0.
     assert (l0 ∈ dom h0) as Hd0 by (by apply elem_of_dom).
-    assert (l0 ∉ W) as HnW. { intros HlW. by eapply (H4 x l l0 Hx Hl (HW _ HlW)). }
+    assert (l0 ∉ W) as HnW. { intros HlW. destruct (HW _ HlW) as [Hr Hnv]. by destruct (H4 x l l0 Hx Hl Hr). }
     rewrite Hfr; [by eapply lookup_weaken|by eapply (subseteq_dom _ _ H1)|done].
   - done.
   - intros y ly Hy. apply Hdom. by eapply H3.
-  - intros y ly l' Hy Hly Hr. destruct (reach_write _ _ _ _ _ Hw Hr) as [?|[?|?]].
-    + by eapply (H4 y ly).
-    + by eapply (H4 x l).
-    + eapply inv_dom0; eauto.
+  - intros y ly l' Hy Hly Hr. destruct (reach_write _ _ _ _ _ Hw Hr) as [Hq|[Hq|[Hq|Hq]]].
+    + destruct (H4 y ly l' Hy Hly Hq) as [?|?]; [by left|right; by eapply wstep_vcell].
+    + destruct (H4 x l l' Hx Hl Hq) as [?|?]; [by left|right; by eapply wstep_vcell].
+    + left. eapply inv_dom0; eauto.
+    + right. by eapply wstep_vcell.
+  - done.
+Qed.
+(* an in-place update of a BlackBox / pin set made by the call itself *)
+Lemma inv_write_val own ownv h0 h e x l v v' :
+  inv own ownv h0 (h, e) → x ∈ ownv → e !! x = Some l → h !! l = Some (CBb v) → inv own ownv h0 (<[l := CBb v']> h, e).
+Proof.
+  intros Hinv Hx Hl Hv. pose proof Hinv as (H1 & H2 & H3 & H4 & H5). simpl in *.
+  assert (l ∉ dom h0) as Hl0 by (by eapply H5).
+  assert (∀ l1, vcell h l1 → vcell (<[l := CBb v']> h) l1) as Hvc.
+  { intros l1 [d Hd]. destruct (decide (l1 = l)) as [->|?]; [exists v'; by rewrite lookup_insert|exists d; by rewrite lookup_insert_ne]. }
+  assert (∀ r l', reach (<[l := CBb v']> h) r l' → reach h r l') as Hre.
+  { intros r l' Hr. induction Hr as [|a b c (cc & Ha & Hb) _ IH]; [constructor|].
+    destruct (decide (a = l)) as [->|Hne]; [rewrite lookup_insert in Ha; injection Ha as <-; by apply elem_of_nil in Hb|].
+    rewrite lookup_insert_ne in Ha by done. eapply rtc_l; [by exists cc|done]. }
+  split_and!; simpl.
+  - apply map_subseteq_spec. intros l0 c0 Hl0'. rewrite lookup_insert_ne; [by eapply lookup_weaken|].
+    intros <-. apply Hl0. by apply elem_of_dom.
+  - eapply hclosed_update; [done|done| |by intros ? ?%elem_of_nil]. split; [by eexists|intros _; by exists v].
+  - intros y ly Hy. rewrite dom_insert_L. pose proof (H3 _ _ Hy). set_solver.
+  - intros y ly l' Hy Hly Hr. destruct (H4 y ly l' Hy Hly (Hre _ _ Hr)) as [?|?]; [by left|right; by apply Hvc].
+  - done.
 Qed.
 
 (* every instruction that is not a call *)
@@ -118,99 +203,150 @@ Lemma pick_graph_spec h e g l h1 : hclosed h → env_ok h e → pick_graph h e g
   h ⊆ h1 ∧ hclosed h1 ∧ (∃ gg, h1 !! l = Some (CGraph gg)) ∧ (l ∉ dom h ∨ ∃ x, g = Some x ∧ e !! x = Some l).
 Proof.
   intros Hc He Hp. destruct Hp.
-  - split_and!; [by apply insert_fresh_sub|apply hclosed_insert; [done|by intros ? ?%elem_of_nil]|exists ∅; by rewrite lookup_insert|by left].
-  - split_and!; [by apply insert_fresh_sub|apply hclosed_insert; [done|by intros ? ?%elem_of_nil]|exists ∅; by rewrite lookup_insert|by left].
+  - split_and!; [by apply insert_fresh_sub|apply hclosed_insert; [done|done|by intros ? ?%elem_of_nil]|exists ∅; by rewrite lookup_insert|by left].
+  - split_and!; [by apply insert_fresh_sub|apply hclosed_insert; [done|done|by intros ? ?%elem_of_nil]|exists ∅; by rewrite lookup_insert|by left].
   - split_and!; [done|done|by eexists|right; by eexists].
 Qed.
 Lemma pick_dict_spec h e b l h1 : hclosed h → env_ok h e → pick_dict h e b l h1 →
-  h ⊆ h1 ∧ hclosed h1 ∧ (∃ bb, h1 !! l = Some (CDict bb)) ∧ (l ∉ dom h ∨ ∃ x, b = Some x ∧ e !! x = Some l).
+  h ⊆ h1 ∧ hclosed h1 ∧ (∃ bb, h1 !! l = Some (CDict bb)) ∧ (l ∉ dom h ∨ ∃ x, b = Some x ∧ e !! x = Some l ∧ h1 = h).
 Proof.
   intros Hc He Hp. destruct Hp.
-  - split_and!; [by apply insert_fresh_sub|apply hclosed_insert; [done|by intros ? ?%elem_of_nil]|exists ∅; by rewrite lookup_insert|by left].
-  - split_and!; [by apply insert_fresh_sub|apply hclosed_insert; [done|by intros ? ?%elem_of_nil]|exists ∅; by rewrite lookup_insert|by left].
+  - split_and!; [by apply insert_fresh_sub|apply hclosed_insert; [done|done|rewrite refs_dict_empty; by intros ? ?%elem_of_nil]|exists ∅; by rewrite lookup_insert|by left].
+  - split_and!; [by apply insert_fresh_sub|apply hclosed_insert; [done|done|rewrite refs_dict_empty; by intros ? ?%elem_of_nil]|exists ∅; by rewrite lookup_insert|by left].
   - split_and!; [done|done|by eexists|right; by eexists].
 Qed.
 
-Lemma inv_alloc_leaf own h0 h e d l c :
-  inv own h0 (h, e) → l ∉ dom h → refs c = [] → inv own h0 (<[l := c]> h, <[d := l]> e).
+Lemma inv_alloc_leaf own ownv h0 h e d l c :
+  inv own ownv h0 (h, e) → l ∉ dom h → refs c = [] → inv own ownv h0 (<[l := c]> h, <[d := l]> e).
 Proof.
-  intros Hinv Hl Hc. pose proof Hinv as (H1 & H2 & H3 & H4). simpl in *.
-  eapply inv_ext_bind; [done|by apply insert_fresh_sub| | |].
-  - apply hclosed_insert; [done|]. rewrite Hc. by intros ? ?%elem_of_nil.
+  intros Hinv Hl Hc. pose proof Hinv as (H1 & H2 & H3 & H4 & H5). simpl in *.
+  eapply inv_ext_bind; [done|by apply insert_fresh_sub| | | |].
+  - apply hclosed_insert; [done|done|]. rewrite Hc. by intros ? ?%elem_of_nil.
   - rewrite dom_insert_L. set_solver.
-  - intros _ l' Hr. apply reach_leaf with (c := c) in Hr as ->; [|by rewrite lookup_insert|done]. eapply inv_dom0; eauto.
+  - intros _ l' Hr. apply reach_leaf with (c := c) in Hr as ->; [|by rewrite lookup_insert|done]. left. eapply inv_dom0; eauto.
+  - intros _. eapply inv_dom0; eauto.
+Qed.
+(* a new registry dict whose entries are BlackBox cells *)
+Lemma inv_alloc_dict own ownv h0 h e d l b :
+  inv own ownv h0 (h, e) → l ∉ dom h → (∀ k l', b !! k = Some l' → vcell h l') → inv own ownv h0 (<[l := CDict b]> h, <[d := l]> e).
+Proof.
+  intros Hinv Hl Hb. pose proof Hinv as (H1 & H2 & H3 & H4 & H5). simpl in *.
+  assert (hclosed (<[l := CDict b]> h)) as Hc'.
+  { apply hclosed_insert; [done|done|]. intros l' [k Hk]%elem_of_refs_dict. pose proof (Hb _ _ Hk) as Hv.
+    split; [left; by apply vcell_dom|done]. }
+  eapply inv_ext_bind; [done|by apply insert_fresh_sub|done| | |].
+  - rewrite dom_insert_L. set_solver.
+  - intros _ l' Hr. eapply reach_dict in Hr as [->|?]; [left; eapply inv_dom0; eauto|by right|done|by rewrite lookup_insert].
+  - intros _. eapply inv_dom0; eauto.
 Qed.
 
-Lemma prim_inv tbl own h0 i σ σ' :
-  prim_step i σ σ' → chk_prim tbl own i = true → inv own h0 σ → inv own h0 σ'.
+Lemma prim_inv tbl own ownv h0 i σ σ' :
+  prim_step i σ σ' → chk_prim tbl own ownv i = true → inv own ownv h0 σ → inv own ownv h0 σ'.
 Proof.
   intros Hst Hchk Hinv. destruct Hst; simpl in Hchk.
   - by apply inv_alloc_leaf.
-  - by apply inv_alloc_leaf.
+  - apply inv_alloc_dict; [done|done|]. intros k l' Hk. by rewrite lookup_empty in Hk.
   - (* fresh circuit *)
-    pose proof Hinv as (I1 & I2 & I3 & I4). simpl in *.
+    pose proof Hinv as (I1 & I2 & I3 & I4 & I5). simpl in *.
     set (h1 := <[lg := CGraph g]> h). set (h2 := <[lb := CDict b]> h1).
-    assert (h ⊆ h1) by (by apply insert_fresh_sub).
+    assert (h ⊆ h1) as Hs1 by (by apply insert_fresh_sub).
     assert (lb ∉ dom h1) by (unfold h1; rewrite dom_insert_L; set_solver).
-    assert (h1 ⊆ h2) by (by apply insert_fresh_sub).
-    assert (lc ∉ dom h2) by (unfold h2, h1; rewrite !dom_insert_L; set_solver).
-    assert (hclosed h1) by (apply hclosed_insert; [done|by intros ? ?%elem_of_nil]).
-    assert (hclosed h2) by (apply hclosed_insert; [done|by intros ? ?%elem_of_nil]).
-    eapply inv_ext_bind; [done|etrans; [done|etrans; [done|by apply insert_fresh_sub]]| | |].
-    + apply hclosed_insert; [done|]. simpl. intros l' Hl'. left. unfold h2, h1. rewrite !dom_insert_L. set_solver.
+    assert (h1 ⊆ h2) as Hs2 by (by apply insert_fresh_sub).
+    assert (lc ∉ dom h2) as Hlc by (unfold h2, h1; rewrite !dom_insert_L; set_solver).
+    assert (hclosed h1) as Hc1 by (apply hclosed_insert; [done|done|by intros ? ?%elem_of_nil]).
+    assert (hclosed h2) as Hc2.
+    { apply hclosed_insert; [done|done|]. intros l' [k Hk]%elem_of_refs_dict.
+      assert (vcell h1 l') as Hv by (eapply vcell_sub; eauto). split; [left; by apply vcell_dom|done]. }
+    assert (h2 ⊆ <[lc := CCirc nm lg lb]> h2) as Hs3 by (by apply insert_fresh_sub).
+    assert (hclosed (<[lc := CCirc nm lg lb]> h2)) as Hc3.
+    { apply hclosed_insert; [done|done|]. simpl. intros l' Hl'. split; [|done]. left. unfold h2, h1. rewrite !dom_insert_L. set_solver. }
+    eapply inv_ext_bind; [done|etrans; [done|etrans; done]|done| | |].
     + rewrite dom_insert_L. set_solver.
     + intros _ l' Hr. eapply reach_circ in Hr; [|by rewrite lookup_insert].
       destruct Hr as [->|[Hr|Hr]].
-      * eapply inv_dom0; eauto.
-      * eapply reach_leaf with (c := CGraph g) in Hr as ->; [eapply inv_dom0; eauto| |done].
+      * left. eapply inv_dom0; eauto.
+      * eapply reach_leaf with (c := CGraph g) in Hr as ->; [left; eapply inv_dom0; eauto| |done].
         rewrite lookup_insert_ne by done. unfold h2. rewrite lookup_insert_ne by done. unfold h1. by rewrite lookup_insert.
-      * eapply reach_leaf with (c := CDict b) in Hr as ->; [eapply inv_dom0; eauto| |done].
+      * eapply reach_dict in Hr as [->|?]; [left; eapply inv_dom0; eauto|by right|done|].
         rewrite lookup_insert_ne by done. unfold h2. by rewrite lookup_insert.
+    + intros Hd. by apply ino_false in Hchk.
   - by apply inv_alloc_leaf.
   - by apply inv_alloc_leaf.
-  - by apply inv_alloc_leaf.
+  - (* dict.copy(): a new dict cell holding the same BlackBox references *)
+    pose proof Hinv as (I1 & I2 & I3 & I4 & I5). simpl in *.
+    apply inv_alloc_dict; [done|done|]. intros k l' Hk.
+    eapply (I2 ls (CDict b) l'); [done|by apply elem_of_refs_dict; eauto|done].
   - (* get graph *)
-    pose proof Hinv as (I1 & I2 & I3 & I4). simpl in *.
-    eapply inv_ext_bind; [done|done|done| |].
-    + eapply I2; [done|]. simpl. set_solver.
+    apply andb_true_iff in Hchk as [Hchk Hv].
+    pose proof Hinv as (I1 & I2 & I3 & I4 & I5). simpl in *.
+    eapply inv_ext_bind; [done|done|done| | |].
+    + eapply hclosed_dom; [done|done|]. simpl. set_solver.
     + intros Hd l' Hr. apply implb_ino in Hchk; [|done]. apply ino_true in Hchk.
       eapply (I4 c lc); [done|done|]. eapply reach_step; [done| |done]. simpl. set_solver.
-  - pose proof Hinv as (I1 & I2 & I3 & I4). simpl in *.
-    eapply inv_ext_bind; [done|done|done| |].
-    + eapply I2; [done|]. simpl. set_solver.
+    + intros Hd. by apply ino_false in Hv.
+  - apply andb_true_iff in Hchk as [Hchk Hv].
+    pose proof Hinv as (I1 & I2 & I3 & I4 & I5). simpl in *.
+    eapply inv_ext_bind; [done|done|done| | |].
+    + eapply hclosed_dom; [done|done|]. simpl. set_solver.
     + intros Hd l' Hr. apply implb_ino in Hchk; [|done]. apply ino_true in Hchk.
       eapply (I4 c lc); [done|done|]. eapply reach_step; [done| |done]. simpl. set_solver.
+    + intros Hd. by apply ino_false in Hv.
   - (* Circuit(graph=g, blackboxes=b) *)
-    pose proof Hinv as (I1 & I2 & I3 & I4). simpl in *.
+    apply andb_true_iff in Hchk as [Hchk Hv].
+    pose proof Hinv as (I1 & I2 & I3 & I4 & I5). simpl in *.
     destruct (pick_graph_spec _ _ _ _ _ I2 I3 H) as (Hs1 & Hc1 & (gg & Hgg) & Hg).
     assert (env_ok h1 e) as He1 by (intros x lx Hx; eapply (subseteq_dom _ _ Hs1), I3, Hx).
     destruct (pick_dict_spec _ _ _ _ _ Hc1 He1 H0) as (Hs2 & Hc2 & (bb & Hbb) & Hb).
     assert (h2 !! lg = Some (CGraph gg)) as Hgg2 by (by eapply lookup_weaken).
     assert (lg ∈ dom h2) by (by apply elem_of_dom).
     assert (lb ∈ dom h2) by (by apply elem_of_dom).
-    eapply inv_ext_bind; [done|etrans; [done|etrans; [done|by apply insert_fresh_sub]]| | |].
-    + apply hclosed_insert; [done|]. simpl. intros l' Hl'. left. set_solver.
+    assert (h2 ⊆ <[lc := CCirc nm lg lb]> h2) as Hs3 by (by apply insert_fresh_sub).
+    eapply inv_ext_bind; [done|etrans; [done|etrans; done]| | | |].
+    + apply hclosed_insert; [done|done|]. simpl. intros l' Hl'. split; [|done]. left. set_solver.
     + rewrite dom_insert_L. set_solver.
     + intros Hd l' Hr. apply implb_ino in Hchk; [|done].
       apply andb_true_iff in Hchk as [Hog Hob].
       assert (lc ≠ lg) by (intros ->; done). assert (lc ≠ lb) by (intros ->; done).
       eapply reach_circ in Hr; [|by rewrite lookup_insert].
       destruct Hr as [->|[Hr|Hr]].
-      * intros Hl0. apply H1. eapply (subseteq_dom _ _ Hs2), (subseteq_dom _ _ Hs1), (subseteq_dom _ _ I1), Hl0.
+      * left. intros Hl0. apply H1. eapply (subseteq_dom _ _ Hs2), (subseteq_dom _ _ Hs1), (subseteq_dom _ _ I1), Hl0.
       * eapply reach_leaf with (c := CGraph gg) in Hr as ->; [|by rewrite lookup_insert_ne|done].
-        destruct Hg as [Hg|(x & -> & Hx)]; [eapply inv_dom0; eauto|].
-        simpl in Hog. apply ino_true in Hog. eapply (I4 x lg); [done|done|constructor].
-      * eapply reach_leaf with (c := CDict bb) in Hr as ->; [|by rewrite lookup_insert_ne|done].
-        destruct Hb as [Hb|(x & -> & Hx)].
-        -- intros Hl0. apply Hb. eapply (subseteq_dom _ _ Hs1), (subseteq_dom _ _ I1), Hl0.
-        -- simpl in Hob. apply ino_true in Hob. eapply (I4 x lb); [done|done|constructor].
+        destruct Hg as [Hg|(x & -> & Hx)]; [left; eapply inv_dom0; eauto|].
+        simpl in Hog. apply ino_true in Hog.
+        destruct (I4 x lg lg Hog Hx) as [?|[dd Hd']]; [constructor|by left|].
+        pose proof (lookup_weaken _ _ _ _ Hd' (transitivity Hs1 Hs2)). congruence.
+      * eapply reach_dict in Hr; [|eapply hclosed_insert; [done|done|]; simpl; intros l0 Hl0; split; [left; set_solver|done]
+                                   |by rewrite lookup_insert_ne].
+        destruct Hr as [->|Hvc]; [|by right].
+        destruct Hb as [Hb|(x & -> & Hx & ->)].
+        -- left. intros Hl0. apply Hb. eapply (subseteq_dom _ _ Hs1), (subseteq_dom _ _ I1), Hl0.
+        -- simpl in Hob. apply ino_true in Hob.
+           destruct (I4 x lb lb Hob Hx) as [?|[dd Hd']]; [constructor|by left|].
+           pose proof (lookup_weaken _ _ _ _ Hd' Hs1). congruence.
+    + intros Hd. by apply ino_false in Hv.
+  - (* alias *)
+    apply andb_true_iff in Hchk as [Hchk Hv].
+    pose proof Hinv as (I1 & I2 & I3 & I4 & I5). simpl in *.
+    eapply inv_ext_bind; [done|done|done|by eapply I3| |].
+    + intros Hd l' Hr. apply implb_ino in Hchk; [|done]. apply ino_true in Hchk. by eapply (I4 s ls).
+    + intros Hd. apply implb_ino in Hv; [|done]. apply ino_true in Hv. by eapply (I5 s ls).
+  - by apply inv_alloc_leaf.
+  - (* foreign BlackBox *)
+    apply andb_true_iff in Hchk as [Hchk Hv].
+    pose proof Hinv as (I1 & I2 & I3 & I4 & I5). simpl in *.
+    eapply inv_ext_bind; [done|done|done|by apply vcell_dom| |].
+    + intros Hd. by apply ino_false in Hchk.
+    + intros Hd. by apply ino_false in Hv.
+  - apply ino_true in Hchk. by eapply inv_write_val.
   - (* from *)
-    pose proof Hinv as (Hi1 & Hi2 & Hi3 & Hi4). simpl in *.
-    eapply inv_ext_bind; [done..|].
-    intros Hd l' Hr. apply implb_ino in Hchk; [|done].
-    destruct (H2 _ Hr) as [?|(s & ls & Hs & Hls & Hrs)]; [eapply inv_dom0; eauto|].
-    apply forallb_elem with (x := s) in Hchk; [|done].
-    apply ino_true in Hchk. by eapply (Hi4 s ls).
+    apply andb_true_iff in Hchk as [Hchk Hv].
+    pose proof Hinv as (Hi1 & Hi2 & Hi3 & Hi4 & Hi5). simpl in *.
+    eapply inv_ext_bind; [done..| |].
+    + intros Hd l' Hr. apply implb_ino in Hchk; [|done].
+      destruct (H2 _ Hr) as [?|(s & ls & Hs & Hls & Hrs)]; [left; eapply inv_dom0; eauto|].
+      apply forallb_elem with (x := s) in Hchk; [|done].
+      apply ino_true in Hchk. destruct (Hi4 s ls l' Hchk Hls Hrs) as [?|?]; [by left|right; by eapply vcell_sub].
+    + intros Hd. by apply ino_false in Hv.
   - done.
   - apply ino_true in Hchk. by eapply inv_write.
 Qed.
@@ -222,15 +358,13 @@ Proof.
   injection H as <-. apply list_find_Some in E as (Hi & Hn & _). split; [by eapply elem_of_list_lookup_2|done].
 Qed.
 Lemma table_safe_elem tbl s : table_safe tbl = true → s ∈ tbl → safe_summary tbl s = true.
-Proof.
-  unfold table_safe. intros H Hs. by eapply forallb_elem.
-Qed.
-Lemma safe_with_spec tbl own s : safe_with tbl own s = true →
-  (∀ x, x ∈ s_params s → x ∉ own) ∧ chk_prog tbl own (s_body s) = true ∧ (∀ rv, s_ret s = Some rv → rv ∈ own).
+Proof. unfold table_safe. intros H Hs. by eapply forallb_elem. Qed.
+Lemma safe_with_spec tbl own ownv s : safe_with tbl own ownv s = true →
+  (∀ x, x ∈ s_params s → x ∉ own ∧ x ∉ ownv) ∧ chk_prog tbl own ownv (s_body s) = true ∧ (∀ rv, s_ret s = Some rv → rv ∈ own).
 Proof.
   unfold safe_with. intros H. apply andb_true_iff in H as [H H3]. apply andb_true_iff in H as [H1 H2]. split_and!.
-  - intros x Hx Ho. eapply forallb_elem in H1; [|done].
-    apply negb_true_iff in H1. apply ino_true in Ho. congruence.
+  - intros x Hx. eapply forallb_elem in H1; [|done]. apply andb_true_iff in H1 as [Ha Hb].
+    split; by apply ino_false.
   - done.
   - intros rv Hr. rewrite Hr in H3. by apply ino_true in H3.
 Qed.
@@ -241,22 +375,23 @@ Proof.
   intros H Hl. apply mapM_Some in H. apply elem_of_list_lookup in Hl as [i Hi].
   destruct (Forall2_lookup_r _ _ _ _ _ H Hi) as (a & _ & Ha). eauto.
 Qed.
-Lemma inv_callee own h ps ls :
-  hclosed h → (∀ l, l ∈ ls → l ∈ dom h) → (∀ x, x ∈ ps → x ∉ own) → inv own h (h, bind_params ps ls).
+Lemma inv_callee own ownv h ps ls :
+  hclosed h → (∀ l, l ∈ ls → l ∈ dom h) → (∀ x, x ∈ ps → x ∉ own ∧ x ∉ ownv) → inv own ownv h (h, bind_params ps ls).
 Proof.
-  intros Hc Hl Hp. split_and!; simpl; [done|done| |].
+  intros Hc Hl Hp. split_and!; simpl; [done|done| | |].
   - intros x l [_ ?]%bind_params_lookup. by apply Hl.
-  - intros x l l' Hx [? _]%bind_params_lookup. by destruct (Hp x).
+  - intros x l l' Hx [? _]%bind_params_lookup. by destruct (Hp x) as [? _].
+  - intros x l Hx [? _]%bind_params_lookup. by destruct (Hp x) as [_ ?].
 Qed.
 
 Lemma exec_inv tbl : table_safe tbl = true →
-  ∀ p σ r σ', exec tbl p σ r σ' → ∀ own h0, chk_prog tbl own p = true → inv own h0 σ → inv own h0 σ'.
+  ∀ p σ r σ', exec tbl p σ r σ' → ∀ own ownv h0, chk_prog tbl own ownv p = true → inv own ownv h0 σ → inv own ownv h0 σ'.
 Proof.
   intros Hsafe p σ r σ' Hex.
   induction Hex as [ | | i σ σ' Hst | p q σ σ1 r σ2 _ IH1 _ IH2 | p q σ σ1 _ IH1 | p q σ r σ1 _ IH | p q σ r σ1 _ IH
                    | | p σ σ1 r σ2 _ IH1 _ IH2 | p σ σ1 _ IH1
                    | d f args s h e ls h' e' e2 Hf Hm Hlen _ IH He2 | d f args s h e ls h' e' Hf Hm Hlen _ IH ];
-    intros own h0 Hchk Hinv; simpl in Hchk; try done.
+    intros own ownv h0 Hchk Hinv; simpl in Hchk; try done.
   - by eapply prim_inv.
   - apply andb_true_iff in Hchk as [? ?]. eauto.
   - apply andb_true_iff in Hchk as [? ?]. eauto.
@@ -267,23 +402,25 @@ Proof.
   - (* call returns *)
     destruct (find_summary_Some _ _ _ Hf) as [Hs _].
     pose proof (table_safe_elem _ _ Hsafe Hs) as Hss. unfold safe_summary in Hss.
-    destruct (safe_with_spec _ _ _ Hss) as (Hp & Hb & Hr).
-    pose proof Hinv as (H1 & H2 & H3 & H4). simpl in *.
-    assert (inv (infer tbl s) h (h', e')) as (C1 & C2 & C3 & C4).
+    destruct (safe_with_spec _ _ _ _ Hss) as (Hp & Hb & Hr).
+    pose proof Hinv as (H1 & H2 & H3 & H4 & H5). simpl in *.
+    assert (inv (infer tbl s) (inferv s) h (h', e')) as (C1 & C2 & C3 & C4 & C5).
     { apply IH; [done|]. apply inv_callee; [done| |done].
       intros l Hl. destruct (mapM_lookup_elem _ _ _ _ Hm Hl) as [a Ha]. by eapply H3. }
-    simpl in *. subst e2.
+    simpl in *. subst e2. rewrite Hf in Hchk. apply andb_true_iff in Hchk as [_ Hchk].
     destruct d as [dv|]; [|by eapply inv_ext_none].
     destruct (s_ret s) as [rv|] eqn:Er; [|by eapply inv_ext_none].
     destruct (e' !! rv) as [l|] eqn:El; [|by eapply inv_ext_none].
-    eapply inv_ext_bind; [done|done|done|by eapply C3|].
-    intros _ l' Hrl Hl0. eapply (C4 rv l l'); [by apply Hr|done|done|]. by eapply (subseteq_dom _ _ H1).
+    eapply inv_ext_bind; [done|done|done|by eapply C3| |].
+    + intros _ l' Hrl. destruct (C4 rv l l') as [Hn|?]; [by apply Hr|done|done| |by right].
+      left. intros Hl0. apply Hn. by eapply (subseteq_dom _ _ H1).
+    + intros Hd. by apply ino_false in Hchk.
   - (* call raises *)
     destruct (find_summary_Some _ _ _ Hf) as [Hs _].
     pose proof (table_safe_elem _ _ Hsafe Hs) as Hss. unfold safe_summary in Hss.
-    destruct (safe_with_spec _ _ _ Hss) as (Hp & Hb & Hr).
-    pose proof Hinv as (H1 & H2 & H3 & H4). simpl in *.
-    assert (inv (infer tbl s) h (h', e')) as (C1 & C2 & C3 & C4).
+    destruct (safe_with_spec _ _ _ _ Hss) as (Hp & Hb & Hr).
+    pose proof Hinv as (H1 & H2 & H3 & H4 & H5). simpl in *.
+    assert (inv (infer tbl s) (inferv s) h (h', e')) as (C1 & C2 & C3 & C4 & C5).
     { apply IH; [done|]. apply inv_callee; [done| |done].
       intros l Hl. destruct (mapM_lookup_elem _ _ _ _ Hm Hl) as [a Ha]. by eapply H3. }
     by eapply inv_ext_none.
@@ -296,19 +433,19 @@ Definition call_of (tbl : list summary) (s : summary) (h : heap) (ls : list loc)
 
 Theorem frame tbl s h ls r h' e' :
   table_safe tbl = true → call_of tbl s h ls r h' e' →
-  (* whether it returns or raises: every cell that existed before the call -- in particular every cell reachable
-     from an argument -- is exactly as it was *)
+  (* whether it returns or raises: every cell that existed before the call -- every cell reachable from an argument,
+     every BlackBox and pin set of its registry, every BlackBox anywhere -- is exactly as it was *)
   (∀ l c, h !! l = Some c → h' !! l = Some c) ∧
   (∀ la l, la ∈ ls → reach h' la l ↔ reach h la l) ∧
-  (* on return: the cells reachable from the result did not exist before the call, hence are disjoint from those
-     reachable from any argument *)
+  (* on return: a cell reachable from the result either did not exist before the call or is a BlackBox cell; hence the
+     result shares nothing but (unmodified) BlackBox objects with any argument *)
   (r = false → ∀ rv lr, s_ret s = Some rv → e' !! rv = Some lr →
-     lr ∈ dom h' ∧ (∀ l, reach h' lr l → l ∉ dom h) ∧ (∀ la l, la ∈ ls → reach h' lr l → ¬ reach h' la l)).
+     lr ∈ dom h' ∧ (∀ l, reach h' lr l → l ∉ dom h ∨ vcell h' l) ∧ (∀ la l, la ∈ ls → reach h' lr l → reach h' la l → vcell h' l)).
 Proof.
   intros Hsafe (Hs & Hc & Hls & Hex).
   pose proof (table_safe_elem _ _ Hsafe Hs) as Hss. unfold safe_summary in Hss.
-  destruct (safe_with_spec _ _ _ Hss) as (Hp & Hb & Hr).
-  assert (inv (infer tbl s) h (h', e')) as (C1 & C2 & C3 & C4).
+  destruct (safe_with_spec _ _ _ _ Hss) as (Hp & Hb & Hr).
+  assert (inv (infer tbl s) (inferv s) h (h', e')) as (C1 & C2 & C3 & C4 & C5).
   { eapply exec_inv; [done|done|done|]. by apply inv_callee. }
   simpl in *.
   assert (∀ la l, la ∈ ls → reach h' la l ↔ reach h la l) as Hreach.
@@ -320,29 +457,54 @@ Proof.
     + by eapply C3.
     + intros l Hl. eapply C4; [by apply Hr|done|done].
     + intros la l Hla Hl Hl'. apply Hreach in Hl'; [|done].
-      eapply (C4 rv lr l); [by apply Hr|done|done|]. eapply reach_dom; [done|by apply Hls|done].
+      destruct (C4 rv lr l) as [Hn|?]; [by apply Hr|done|done| |done].
+      destruct Hn. eapply reach_dom; [done|by apply Hls|done].
 Qed.
 
-(* what the harness snapshots: the denoted circuit of an argument is the same after the call *)
-Lemma denote_sub h h' l C : h ⊆ h' → denote h l = Some C → denote h' l = Some C.
+(* what the harness snapshots: the denoted circuit of an argument -- registry resolved down to the pin sets -- is the
+   same after the call *)
+Lemma resolve_sub h h' l d : h ⊆ h' → resolve h l = Some d → resolve h' l = Some d.
 Proof.
-  unfold denote. intros Hs H.
-  destruct (h !! l) as [[| |n g b|]|] eqn:E; try done.
-  rewrite (lookup_weaken _ _ _ _ E Hs).
-  destruct (h !! g) as [[gg| | |]|] eqn:Eg; try done. rewrite (lookup_weaken _ _ _ _ Eg Hs).
-  destruct (h !! b) as [[|bb| |]|] eqn:Eb; try done. by rewrite (lookup_weaken _ _ _ _ Eb Hs).
+  unfold resolve. intros Hs H. destruct (h !! l) as [[| |d0| |]|] eqn:E; try done.
+  by rewrite (lookup_weaken _ _ _ _ E Hs).
+Qed.
+Lemma denote_same h h' l : (∀ l', reach h l l' → h' !! l' = h !! l') → denote h' l = denote h l.
+Proof.
+  intros H. unfold denote. rewrite (H l) by constructor.
+  destruct (h !! l) as [[| | |n g b|]|] eqn:E; try done.
+  assert (reach h l g) as Hg by (apply (reach_step h l _ g g E); [simpl; set_solver|constructor]).
+  assert (reach h l b) as Hb by (apply (reach_step h l _ b b E); [simpl; set_solver|constructor]).
+  rewrite (H g), (H b) by done.
+  destruct (h !! g) as [[gg| | | |]|] eqn:Eg; try done.
+  destruct (h !! b) as [[|bb| | |]|] eqn:Eb; try done.
+  assert (∀ k lb, bb !! k = Some lb → resolve h' lb = resolve h lb) as Hres.
+  { intros k lb Hk. unfold resolve. rewrite H; [done|]. eapply rtc_transitive; [exact Hb|].
+    apply (reach_step h b _ lb lb Eb); [apply elem_of_refs_dict; eauto|constructor]. }
+  assert (omap (resolve h') bb = omap (resolve h) bb) as ->.
+  { apply map_eq. intros k. rewrite !lookup_omap. destruct (bb !! k) as [lb|] eqn:Ek; [simpl; by eapply Hres|done]. }
+  destruct (decide (map_Forall _ bb)) as [Ha|Ha]; destruct (decide (map_Forall _ bb)) as [Hb'|Hb']; try done.
+  - destruct Hb'. intros k lb Hk. rewrite <- (Hres _ _ Hk). by eapply Ha.
+  - destruct Ha. intros k lb Hk. rewrite (Hres _ _ Hk). by eapply Hb'.
+Qed.
+Lemma denote_sub h h' l C : h ⊆ h' → hclosed h → l ∈ dom h → denote h l = Some C → denote h' l = Some C.
+Proof.
+  intros Hs Hc Hl HC. rewrite <- HC. apply denote_same. intros l' Hr.
+  assert (l' ∈ dom h) as [c Hc']%elem_of_dom by (by eapply reach_dom).
+  rewrite Hc'. by eapply lookup_weaken.
 Qed.
 Corollary argument_unchanged tbl s h ls r h' e' la C :
   table_safe tbl = true → call_of tbl s h ls r h' e' → la ∈ ls → denote h la = Some C → denote h' la = Some C.
 Proof.
   intros Hsafe Hcall Hla HC. destruct (frame _ _ _ _ _ _ _ Hsafe Hcall) as (H1 & _).
-  eapply denote_sub; [|done]. apply map_subseteq_spec. exact H1.
+  destruct Hcall as (_ & Hc & Hls & _).
+  eapply denote_sub; [|done|by apply Hls|done]. apply map_subseteq_spec. exact H1.
 Qed.
 
 (* ------------------------------------------------------------------ later histories *)
-(* two roots whose reachable parts are disjoint stay so under any edit of one of them, and the other does not see it *)
+(* two roots whose reachable parts meet in BlackBox cells only stay so under any Circuit-level edit of one of them,
+   and the other does not see it *)
 Definition separate (h : heap) (a b : loc) : Prop :=
-  hclosed h ∧ a ∈ dom h ∧ b ∈ dom h ∧ ∀ l, reach h a l → ¬ reach h b l.
+  hclosed h ∧ a ∈ dom h ∧ b ∈ dom h ∧ ∀ l, reach h a l → reach h b l → vcell h l.
 Lemma separate_sym h a b : separate h a b → separate h b a.
 Proof. intros (?&?&?&H). split_and!; try done. intros l ? ?. by eapply H. Qed.
 Lemma wstep_other h a b h' :
@@ -351,7 +513,7 @@ Lemma wstep_other h a b h' :
 Proof.
   intros (Hc & Ha & Hb & Hsep) Hw. pose proof Hw as (W & HW & Hdom & Hcl & Hfr & Hrefs).
   assert (∀ l, reach h b l → h' !! l = h !! l) as Hsame.
-  { intros l Hl. apply Hfr; [by eapply reach_dom|]. intros HlW. by eapply Hsep; [apply HW|]. }
+  { intros l Hl. apply Hfr; [by eapply reach_dom|]. intros HlW. destruct (HW _ HlW) as [Hra Hnv]. apply Hnv. by apply Hsep. }
   assert (∀ l, reach h b l → reach h' b l) as Hfw.
   { apply (rtc_ind_r (λ l, reach h' b l)); [constructor|]. intros y z Hxy (c & Hy & Hz) IH.
     eapply rtc_r; [done|]. exists c. split; [|done]. rewrite Hsame; done. }
@@ -361,8 +523,11 @@ Proof.
   split_and!; [done|by split; auto|].
   split_and!; [done|by apply Hdom|by apply Hdom|].
   intros l Hla Hlb. apply Hbw in Hlb.
-  destruct (reach_write _ _ _ _ _ Hw Hla) as [?|[?|Hn]]; [by eapply Hsep..|].
-  apply Hn. by eapply reach_dom.
+  destruct (reach_write _ _ _ _ _ Hw Hla) as [?|[?|[Hn|?]]].
+  - eapply wstep_vcell; [done|]. by apply Hsep.
+  - eapply wstep_vcell; [done|]. by apply Hsep.
+  - destruct Hn. by eapply reach_dom.
+  - by eapply wstep_vcell.
 Qed.
 Definition edits (root : loc) : heap → heap → Prop := rtc (λ h h', wstep h root h').
 Lemma edits_other h a b h' :
@@ -372,14 +537,6 @@ Proof.
   destruct (wstep_other _ _ _ _ Hsep Hw) as (Hsame & Hre & Hsep2).
   destruct (IH Hsep2) as (Hsame3 & Hsep3). split; [|done].
   intros l Hl. rewrite Hsame3; [by apply Hsame|by apply Hre].
-Qed.
-Lemma denote_same h h' l : (∀ l', reach h l l' → h' !! l' = h !! l') → denote h' l = denote h l.
-Proof.
-  intros H. unfold denote. rewrite (H l) by constructor.
-  destruct (h !! l) as [[| |n g b|]|] eqn:E; try done.
-  rewrite (H g), (H b); [done|..].
-  - apply (reach_step h l _ b b E); [simpl; set_solver|constructor].
-  - apply (reach_step h l _ g g E); [simpl; set_solver|constructor].
 Qed.
 
 Theorem independent_histories tbl s h ls h' e' rv lr la :
@@ -392,8 +549,8 @@ Proof.
   destruct (H3 eq_refl _ _ Hrv Hlr) as (Hd & Hnew & Hdis).
   pose proof Hcall as (Hs & Hc & Hls & Hex).
   pose proof (table_safe_elem _ _ Hsafe Hs) as Hss. unfold safe_summary in Hss.
-  destruct (safe_with_spec _ _ _ Hss) as (Hp & Hb & Hr).
-  assert (inv (infer tbl s) h (h', e')) as (C1 & C2 & C3 & C4).
+  destruct (safe_with_spec _ _ _ _ Hss) as (Hp & Hb & Hr).
+  assert (inv (infer tbl s) (inferv s) h (h', e')) as (C1 & C2 & C3 & C4 & C5).
   { eapply exec_inv; [done|done|done|]. by apply inv_callee. }
   simpl in *.
   assert (separate h' lr la) as Hsep.
@@ -409,40 +566,49 @@ Proof.
 Qed.
 
 (* the concrete edits are mutator steps *)
-Lemma wstep_leaf h l l1 c c' :
-  hclosed h → reach h l l1 → h !! l1 = Some c → refs c' = [] → wstep h l (<[l1 := c']> h).
+Lemma wstep_replace h l l1 c c' :
+  hclosed h → reach h l l1 → h !! l1 = Some c → ¬ vcell h l1 → (∀ d, c' ≠ CBb d) →
+  (∀ l', l' ∈ refs c' → vcell h l' ∧ is_dict c') → wstep h l (<[l1 := c']> h).
 Proof.
-  intros Hc Hr Hl1 Hrf. assert (l1 ∈ dom h) by (by apply elem_of_dom).
+  intros Hc Hr Hl1 Hnv Hnb Hrf. assert (l1 ∈ dom h) by (by apply elem_of_dom).
   exists {[ l1 ]}. split_and!.
   - by intros l' ->%elem_of_singleton.
   - rewrite dom_insert_L. set_solver.
-  - apply hclosed_insert; [done|]. rewrite Hrf. by intros ? ?%elem_of_nil.
+  - eapply hclosed_update; [done|done| |].
+    + split; [done|]. intros [d ->]. by destruct (Hnb d).
+    + intros l' Hl'. destruct (Hrf _ Hl') as [Hv _]. split; [by apply vcell_dom|]. intros _. split; [done|]. by intros ->.
   - intros l' _ Hn. rewrite lookup_insert_ne; [done|set_solver].
-  - intros l2 c2 l3 H1 H2 Hor. exfalso.
+  - intros l2 c2 l3 H1 H2 Hor.
     destruct (decide (l2 = l1)) as [->|Hne].
-    + rewrite lookup_insert in H1. injection H1 as <-. rewrite Hrf in H2. by apply elem_of_nil in H2.
-    + rewrite lookup_insert_ne in H1 by done. destruct Hor as [?|Hn]; [set_solver|]. apply Hn. by apply elem_of_dom.
+    + rewrite lookup_insert in H1. injection H1 as <-. right; right. by destruct (Hrf _ H2).
+    + exfalso. rewrite lookup_insert_ne in H1 by done. destruct Hor as [?|Hn]; [set_solver|]. apply Hn. by apply elem_of_dom.
 Qed.
 Lemma wstep_set_graph h l n lg lb g' :
   hclosed h → h !! l = Some (CCirc n lg lb) → (∃ g, h !! lg = Some (CGraph g)) → wstep h l (set_graph h l g').
 Proof.
-  intros Hc Hl [g Hg]. unfold set_graph. rewrite Hl. eapply wstep_leaf; [done| |done|done].
-  apply (reach_step h l _ lg lg Hl); [simpl; set_solver|constructor].
+  intros Hc Hl [g Hg]. unfold set_graph. rewrite Hl. eapply wstep_replace; [done| |done| |done|by intros ? ?%elem_of_nil].
+  - apply (reach_step h l _ lg lg Hl); [simpl; set_solver|constructor].
+  - intros [d Hd]. congruence.
 Qed.
 Lemma wstep_set_dict h l n lg lb b' :
-  hclosed h → h !! l = Some (CCirc n lg lb) → (∃ b, h !! lb = Some (CDict b)) → wstep h l (set_dict h l b').
+  hclosed h → h !! l = Some (CCirc n lg lb) → (∃ b, h !! lb = Some (CDict b)) → (∀ k l', b' !! k = Some l' → vcell h l') →
+  wstep h l (set_dict h l b').
 Proof.
-  intros Hc Hl [b Hb]. unfold set_dict. rewrite Hl. eapply wstep_leaf; [done| |done|done].
-  apply (reach_step h l _ lb lb Hl); [simpl; set_solver|constructor].
+  intros Hc Hl [b Hb] Hv. unfold set_dict. rewrite Hl. eapply wstep_replace; [done| |done| |done|].
+  - apply (reach_step h l _ lb lb Hl); [simpl; set_solver|constructor].
+  - intros [d Hd]. congruence.
+  - intros l' [k Hk]%elem_of_refs_dict. split; [by eapply Hv|done].
 Qed.
 Lemma wstep_set_name h l n lg lb n' :
   hclosed h → h !! l = Some (CCirc n lg lb) → wstep h l (set_name h l n').
 Proof.
   intros Hc Hl. unfold set_name. rewrite Hl. assert (l ∈ dom h) by (by apply elem_of_dom).
   exists {[ l ]}. split_and!.
-  - intros l' ->%elem_of_singleton. constructor.
+  - intros l' ->%elem_of_singleton. split; [constructor|]. intros [d Hd]. congruence.
   - rewrite dom_insert_L. set_solver.
-  - apply hclosed_insert; [done|]. simpl. intros l' Hl'. left. eapply Hc; [done|]. done.
+  - eapply hclosed_update; [done|done| |].
+    + split; [intros [d Hd]; congruence|]. by intros [d ?].
+    + simpl. intros l' Hl'. split; [|done]. eapply hclosed_dom; [done|done|done].
   - intros l' _ Hn. rewrite lookup_insert_ne; [done|set_solver].
   - intros l2 c2 l3 H1 H2 Hor.
     destruct (decide (l2 = l)) as [->|Hne].
